@@ -17,6 +17,8 @@ import PdProps.C07
 import PdProps.C04Base
 import PdProps.C04Clean
 import PdProps.C04Inh
+import PdProps.C04ReexpC
+import PdProps.C04ReexpE
 
 namespace Names
 open Registry
@@ -750,6 +752,58 @@ theorem ResolveSoundReexport.order_independent {proj : Project} {rank : List Nat
 /-- on projects without re-export requests `finalLoc` is the identity and `WFr` projects are `WF`: the
 statement is `resolve_sound_partial` / `resolve_sound_inherited` there -/
 example : finalLoc exProj (.dfn [['p','a'],['m','1'],['K']]) = .dfn [['p','a'],['m','1'],['K']] := by decide +kernel
+
+/-- **soundness with re-export moves** (the statement `ResolveSoundReexport`), under the two obligations that
+the layers C04ReexpD/E carry as hypotheses: `Rx.ReparentOk` (registry level: `reparent` onto a free name of an
+object that is not below the moved one raises nothing) and `Rx.SubLookup` (the implicit submodule lookup of
+`from <package> import n` enters no module of too high a rank).  Proof: the relocated invariant `Rx.PdInv`
+(PdProps/C04ReexpB…D: `path i = loc s S`, kept by every statement kind and by `doMove`), resolution on the
+finished state up to the relocation (C04ReexpE), and `loc = finalLoc` once every module is processed. -/
+theorem resolve_sound_reexport_of (proj : Project) (rank : List Nat) (hro : Rx.ReparentOk) (hsl : Rx.SubLookup proj rank) :
+    ResolveSoundReexport proj rank := by
+  intro hwf ordPd ordPy hcov m hm cp name a b h1 h2
+  obtain ⟨wf, rx⟩ := WFr.facts hwf
+  obtain ⟨_, hI, hn, hord⟩ := Rx.run_ok wf rx hro hsl ordPd
+  have hproc : ∀ t, t < proj.length → getPs (run proj ordPd) t = .processed := fun t ht => hord t (hcov t ht)
+  obtain ⟨S, sv, hcase, hj, hid⟩ := pyDenotes_jI wf h2
+  unfold pdResolve resolveIn at h1
+  generalize run proj ordPd = s at hI hn h1 hproc
+  cases hw : walk s.reg m cp with
+  | none => simp [hw] at h1
+  | some i =>
+    simp only [hw] at h1
+    cases hr : Names.resolveName (finalEnv s) i name with
+    | none => simp [hr] at h1
+    | some j =>
+      simp only [hr] at h1
+      obtain ⟨om, hom, hpm, hcm⟩ := hI.mods m hm
+      have hpi := walk_path hI.reg cp m i _ hpm hw
+      obtain ⟨oi, hoi⟩ : ∃ oi, s.reg.objs[i]? = some oi := ⟨s.reg.objs[i]'(path_lt hpi), by simp [path_lt hpi]⟩
+      obtain ⟨Si, hki, hpi'⟩ := hI.site i oi hoi
+      -- the scope pydoctor walked to is the scope Python walked to
+      have hSi : Si = S := by
+        rcases hcase with ⟨hcp, hS⟩ | ⟨hcp, hjc⟩
+        · subst hcp; subst hS
+          simp only [walk, Option.some.injEq] at hw; subst hw
+          rw [hpm] at hpi'; injection hpi' with hpi'
+          exact Rx.loc_inj wf rx s hki.static ⟨hm, Or.inl rfl⟩ (by rw [Rx.loc_mod]; exact hpi'.symm)
+        · rw [hpi] at hpi'; injection hpi' with hpi'
+          have hc1 := canon_reloc wf rx (Rx.movedB proj s) hki.static
+          rw [show relocSite proj (Rx.movedB proj s) Si = pathOf proj m ++ cp from hpi'.symm] at hc1
+          cases hcp' : cp with
+          | nil => exact absurd hcp' hcp
+          | cons y ys =>
+            rw [hcp'] at hjc hc1
+            have hc2 := AbsDen.ext (canon_mod wf m hm) (show Jpy proj (scopeOf (.mod m)) (y :: ys) _ from hjc)
+            have := AbsDen.fun wf hc1 hc2.weak
+            have h3 := congrArg scopeOf this
+            rw [scopeOf_svalOf] at h3
+            exact h3
+      subst hSi
+      obtain ⟨hident, S', hS', hsv⟩ := Rx.resolve_sound_state wf rx hI hn hoi hpi' hki hj hr
+      rw [hident] at h1; injection h1 with h1
+      rw [← h1, ← hid, ← hsv]
+      exact Rx.locIdent_final wf (Rx.all_moved hI hproc) hS'
 
 /-- the definer's body: a class with a method and a nested class, and a function -/
 def rxDefBody : List Stmt := [.classDef ['K'] [] [.funcDef ['g'], .classDef ['N'] [] [.assign ['v'] 1]], .funcDef ['f']]
